@@ -1644,6 +1644,147 @@ def main(out_path, report_path=None):
         except Exception as ex:      # noqa: BLE001
             lines.append("def %s_text : Option String := none" % name)
             report["not_translated"][name + "_text"] = "%s: %s" % (type(ex).__name__, ex)
+    # LINKED composites: the IR of a root function with some of its opaque inputs replaced by the IR of the function they call
+    # (monomorphised per header kind) - the seams between separately translated functions are closed
+    done = {}
+    for ln in lines:
+        pass
+    irs = {}
+    cur = None
+    for ln in lines:
+        m = re.match(r"def (\w+) : Option E := some$", ln.split("\n")[0]) if ln.startswith("def ") else None
+        if ln.startswith("def ") and " : Option E := some\n" in ln:
+            nm = ln.split(" ")[1]
+            irs[nm] = ln.split("\n", 1)[1].strip()
+    varsof = {}
+    for ln in lines:
+        m = re.match(r"def (\w+)_vars : List String := \[(.*)\]$", ln)
+        if m:
+            varsof[m.group(1)] = json.loads("[" + m.group(2) + "]")
+
+    def renumber(ir, off):
+        def rep(mm):
+            n = int(mm.group(2))
+            return "%s%d" % (mm.group(1), n + off if n >= 100 else n)
+        return re.sub(r"(\(\.var |\(\.letIn |\(\.tryE )(\d+)", rep, ir)
+
+    def subst(ir, mapping):
+        def rep(mm):
+            n = int(mm.group(1))
+            return mapping.get(n, mm.group(0))
+        return re.sub(r"\(\.var (\d+)\)", rep, ir)
+
+    counter = [0]
+
+    def build(spec, inputs):
+        """spec = (function name, {input text: ('in', name) | ('lit', ir) | ('call', spec)}) -> IR text over `inputs`"""
+        fname, binds = spec
+        if fname not in irs:
+            raise Unsupported("link: %s not translated" % fname)
+        counter[0] += 1
+        ir = renumber(irs[fname], 1000 * counter[0])
+        mapping = {}
+        for i, v in enumerate(varsof[fname]):
+            b = binds.get(v)
+            if b is None:
+                raise Unsupported("link: input %s of %s is not bound" % (v, fname))
+            if b[0] == "in":
+                if b[1] not in inputs:
+                    inputs.append(b[1])
+                mapping[i] = "(.var %d)" % inputs.index(b[1])
+            elif b[0] == "lit":
+                mapping[i] = b[1]
+            else:
+                mapping[i] = build(b[1], inputs)
+        return subst(ir, mapping)
+
+    for kind, hs, plfn, szfield in (("tag", 8, "tag_header_payload_len", "self.size"), ("ht", 8, "ht_header_payload_len", "self.size"),
+                                    ("bi", 8, "bi_header_payload_len", "self.total_size"), ("hb", 16, "hb_header_payload_len", "self.length")):
+        nm = "ref_from_slice_" + kind
+        try:
+            inputs = ["len", "ao", "bytes", "d", "result"]
+            hsl = "(.tlit %d .usize)" % hs
+            spec = ("ref_from_slice", {
+                "BytesRef::<H>::try_from(bytes)": ("call", ("bytes_ref_try_from", {
+                    "bytes.len()": ("in", "len"), "size_of::<H>()": ("lit", hsl),
+                    "bytes.as_ptr().align_offset(ALIGNMENT)": ("in", "ao"), "bytes": ("in", "bytes")})),
+                "Self::ref_from_bytes(bytes)": ("call", ("ref_from_bytes", {
+                    "hdr.payload_len()": ("call", (plfn, {szfield: ("in", "d")})),
+                    "bytes.len()": ("in", "len"), "size_of::<H>()": ("lit", hsl),
+                    "ptr_meta::from_raw_parts(ptr.cast(),dst_size)": ("in", "result")})),
+            })
+            ir = build(spec, inputs)
+            lines.append("def %s : Option E := some\n  %s" % (nm, ir))
+            lines.append("def %s_vars : List String := [%s]" % (nm, ", ".join(json.dumps(x) for x in inputs)))
+            report["translated"].append(nm)
+        except (Unsupported, KeyError) as ex:
+            lines.append("def %s : Option E := none" % nm)
+            report["not_translated"][nm] = "%s: %s" % (type(ex).__name__, ex)
+    # the two `load` functions, linked down to the size arithmetic
+    def rfs(kind_hs, plfn, tsfn, szfield):
+        hsl = "(.tlit %d .usize)" % kind_hs
+        ts = ("call", (tsfn, {szfield: ("in", "d")}))
+        return ("call", ("ref_from_ptr", {"Self::ref_from_slice(slice)": ("call", ("ref_from_slice", {
+            "BytesRef::<H>::try_from(bytes)": ("call", ("bytes_ref_try_from", {
+                "bytes.len()": ts, "size_of::<H>()": ("lit", hsl),
+                "bytes.as_ptr().align_offset(ALIGNMENT)": ("in", "ao"), "bytes": ("in", "bytes")})),
+            "Self::ref_from_bytes(bytes)": ("call", ("ref_from_bytes", {
+                "hdr.payload_len()": ("call", (plfn, {szfield: ("in", "d")})),
+                "bytes.len()": ts, "size_of::<H>()": ("lit", hsl),
+                "ptr_meta::from_raw_parts(ptr.cast(),dst_size)": ("in", "result")}))}))}))
+    for nm, spec, inputs in (
+        ("mbi_load_linked", ("mbi_load", {
+            "NonNull::new(ptr.cast_mut())": ("in", "nonnull"),
+            "DynSizedStructure::ref_from_ptr(ptr)": rfs(8, "bi_header_payload_len", "bi_header_total_size", "self.total_size"),
+            "this.has_valid_end_tag()": ("call", ("has_valid_end_tag", {"end_tag.typ": ("in", "end_typ"), "end_tag.size": ("in", "end_size")}))}),
+         ["nonnull", "ao", "bytes", "d", "result", "end_typ", "end_size"]),
+        ("hdr_load_linked", ("hdr_load", {
+            "NonNull::new(ptr.cast_mut())": ("in", "nonnull"),
+            "DynSizedStructure::ref_from_ptr(ptr)": rfs(16, "hb_header_payload_len", "hb_header_total_size", "self.length"),
+            "header.header_magic": ("in", "magic"),
+            "header.verify_checksum()": ("call", ("verify_checksum", {"self.header_magic": ("in", "magic"), "self.arch": ("in", "arch"),
+                                                                     "self.length": ("in", "d"), "self.checksum": ("in", "checksum")}))}),
+         ["nonnull", "ao", "bytes", "d", "result", "magic", "arch", "checksum"])):
+        try:
+            ins = list(inputs)
+            ir = build(spec, ins)
+            lines.append("def %s : Option E := some\n  %s" % (nm, ir))
+            lines.append("def %s_vars : List String := [%s]" % (nm, ", ".join(json.dumps(x) for x in ins)))
+            report["translated"].append(nm)
+        except (Unsupported, KeyError) as ex:
+            lines.append("def %s : Option E := none" % nm)
+            report["not_translated"][nm] = "%s: %s" % (type(ex).__name__, ex)
+    lines.append("")
+    # the METHOD SETS of the trait impls the model depends on: an added override (`nth`, `last`, `count`, `size_hint`, a second
+    # `total_size`) or a removed one changes behaviour without touching any translated body
+    impls = []
+    try:
+        for path in sorted(ctx.all_text):
+            txt = ctx.all_text[path]
+            t = re.search(r"#\[cfg\((?:all\()?test", txt)
+            body_txt = txt[:t.start()] if t else txt
+            for m in re.finditer(r"\bimpl\b([^{;]*?)\b(Iterator|ExactSizeIterator|DoubleEndedIterator|FusedIterator|Header|MaybeDynSized|Default|Deref)\b(?:<[^{]*?>)?\s+for\s+([A-Za-z_]\w*)[^{]*\{", body_txt):
+                end = gen_source.matching(body_txt, m.end() - 1)
+                blk = body_txt[m.end():end - 1]
+                # top-level items of the impl only
+                depth = 0
+                top = ""
+                for ch in blk:
+                    if ch == "{":
+                        depth += 1
+                    elif ch == "}":
+                        depth -= 1
+                    elif depth == 0:
+                        top += ch
+                names = sorted(set(re.findall(r"\bfn\s+(\w+)", top)) | set("const " + c for c in re.findall(r"\bconst\s+(\w+)", top)))
+                impls.append((m.group(2), m.group(3), names))
+        impls.sort()
+        lines.append("def trait_impls : Option (List (String × String × List String)) := some [" + ", ".join(
+            "(%s, %s, [%s])" % (json.dumps(a), json.dumps(b), ", ".join(json.dumps(n) for n in ns)) for a, b, ns in impls) + "]")
+        report["trait_impls"] = len(impls)
+    except Exception as ex:      # noqa: BLE001
+        lines.append("def trait_impls : Option (List (String × String × List String)) := none")
+        report["not_translated"]["trait_impls"] = repr(ex)
     lines.append("")
     lines.append("end Mb2.Gen.Fns")
     new = "\n".join(lines) + "\n"
